@@ -13,7 +13,7 @@ def run(ctx):
     for fs in ctx.featuresets():
         m = ctx.mir(fs)
         res = [T.deps_record_rule(m["ts_rs_macros"], "C03"), L.visit_agreement_rule(m["ts_rs"], "C03", rule="C03.R2"),
-               MM.import_shape_rule(m["ts_rs"], "C03"), MM.same_relation_rule(m["ts_rs"], "C03")]
+               MM.import_shape_rule(m["ts_rs"], "C03"), MM.same_relation_rule(m["ts_rs"], "C03"), E.import_prefix_rule(m["ts_rs"], "C03")]
         if fs == "default":
             res = [T.pairing_rule(ctx.syn, "C03"), T.selector_rule(ctx.syn, "C03", rule="C03.R1b"),
                    T.deps_emission_rule(ctx.syn, m["ts_rs_macros"], "C03", "C03.R6"), D.dedup_key_rule(ctx.syn, "C03", rule="C03.R7"), T.generics_visit_rule(ctx.syn, "C03", "C03.R8")] + res
